@@ -7,5 +7,7 @@ type syntaxQueryParamLiteral struct {
 func (l *syntaxQueryParamLiteral) compute(
 	_ interface{}, _ []interface{}) []interface{} {
 
-	return l.literal
+	// The comparators overwrite the list they are given:
+	// never hand out the slice owned by the parsed syntax tree.
+	return []interface{}{l.literal[0]}
 }
